@@ -163,7 +163,21 @@ HaltTxs == {MkTx("SetHaltBlock", Owner(i), [pub |-> Key(i), height |-> VoteHeigh
            \cup {MkTx("SetHaltBlock", "o1", [pub |-> "v1", height |-> H0]), MkTx("SetHaltBlock", "a1", [pub |-> "v2", height |-> VoteHeight])}
 UpdateTxs == {MkTx("VoteUpdate", Owner(i), [pub |-> Key(i), height |-> VoteHeight, version |-> ver]) : i \in 2..4, ver \in {"v330"}}
              \cup {MkTx("VoteUpdate", "o3", [pub |-> "v3", height |-> VoteHeight, version |-> "v320"]), MkTx("VoteUpdate", "o1", [pub |-> "v1", height |-> VoteHeight, version |-> "v320"])}
-TxMenu == (IF "Halt" \in Menu THEN HaltTxs ELSE {}) \cup (IF "Update" \in Menu THEN UpdateTxs ELSE {})
+\* candidates: declared by a user (owner = the declared address, reward and control = the sender), edited by owner / control / stranger
+CandTxs == {MkTx("DeclareCandidacy", "a1", [address |-> "a1", pub |-> "n1", comm |-> 10, coin |-> Base, stake |-> 5000]),
+            MkTx("DeclareCandidacy", "a2", [address |-> "a3", pub |-> "n1", comm |-> 101, coin |-> Base, stake |-> 10]),
+            MkTx("DeclareCandidacy", "a2", [address |-> "a3", pub |-> "n2", comm |-> 100, coin |-> Base, stake |-> 10]),
+            MkTx("DeclareCandidacy", "a2", [address |-> "a2", pub |-> "v1", comm |-> 10, coin |-> Base, stake |-> 10]),
+            MkTx("EditCandidate", "o2", [pub |-> "v2", reward |-> "a4", owner |-> "a4", control |-> "o2"]),
+            MkTx("EditCandidate", "a6", [pub |-> "v2", reward |-> "a6", owner |-> "a6", control |-> "a6"]),
+            MkTx("EditCandidate", "a1", [pub |-> "v2", reward |-> "a1", owner |-> "a1", control |-> "a1"]),
+            MkTx("EditCandidate", "a4", [pub |-> "v2", reward |-> "a4", owner |-> "o2", control |-> "a4"]),
+            MkTx("EditCandidateCommission", "o2", [pub |-> "v2", comm |-> 30]),
+            MkTx("EditCandidateCommission", "o2", [pub |-> "v2", comm |-> 31]),
+            MkTx("EditCandidateCommission", "a6", [pub |-> "v2", comm |-> 25]),
+            MkTx("EditCandidateCommission", "a5", [pub |-> "c5", comm |-> 0]),
+            MkTx("SetCandidateOn", "a1", [pub |-> "n1"]), MkTx("SetCandidateOff", "a4", [pub |-> "v2"])}
+TxMenu == (IF "Halt" \in Menu THEN HaltTxs ELSE {}) \cup (IF "Candidates" \in Menu THEN CandTxs ELSE {}) \cup (IF "Update" \in Menu THEN UpdateTxs ELSE {})
      \cup (IF "Delegate" \in Menu THEN DelegateTxs ELSE {})
      \cup (IF "Unbond" \in Menu THEN UnbondTxs ELSE {})
      \cup (IF "Move" \in Menu THEN MoveTxs ELSE {})
@@ -252,6 +266,17 @@ ReachStep ==
    /\ Mark("EvidenceWithUnbondingFunds", IsKind("BeginBlock") /\ \E f \in Range(st.frozen) : f.key \in EvSet /\ f.due > H)
    /\ Mark("EvidenceWithFundsDueNow", IsKind("BeginBlock") /\ \E f \in Range(st.frozen) : f.key \in EvSet /\ f.due = H)
    /\ Mark("EvidenceAgainstOffline", IsKind("BeginBlock") /\ ~NoEvidence /\ EvSet = {})
+   /\ Mark("DeclareOk", OkTx("DeclareCandidacy"))
+   /\ Mark("DeclareExisting", Rej(CandidateExists))
+   /\ Mark("DeclareWrongCommission", Delivered /\ Tx.type = "DeclareCandidacy" /\ Code = WrongCommission)
+   /\ Mark("EditCandidateOk", OkTx("EditCandidate"))
+   /\ Mark("EditByNewOwner", OkTx("EditCandidate") /\ Tx.sender = "a4")
+   /\ Mark("EditByStranger", Delivered /\ Tx.type = "EditCandidate" /\ Code = IsNotOwnerOfCandidate)
+   /\ Mark("CommissionOk", OkTx("EditCandidateCommission"))
+   /\ Mark("CommissionTooFar", Delivered /\ Tx.type = "EditCandidateCommission" /\ Code = WrongCommission)
+   /\ Mark("CommissionTooSoon", Rej(PeriodLimitReached))
+   /\ Mark("CommissionByControl", Delivered /\ Tx.type = "EditCandidateCommission" /\ Code = IsNotOwnerOfCandidate)
+   /\ Mark("NewCandidateIsValidator", IsKind("EndBlock") /\ "n1" \in ValNames(st'))
    /\ Mark("VoteOk", OkTx("SetHaltBlock") \/ OkTx("VoteUpdate"))
    /\ Mark("VoteExpired", Rej(VoteExpired))
    /\ Mark("VoteTwice", Rej(VoteAlreadyExists) \/ Rej(HaltAlreadyExists))
